@@ -164,7 +164,7 @@ def run(ctx, rep):
     K.share(ctx, rep, "c16", lambda o: o.rule == "R16.2" and ("_drop_connection" in o.key or "no longer polled" in o.key or "before its descriptor is polled" in o.key), "R17.2", floor=3)
     K.share(ctx, rep, "c11", lambda o: o.rule == "R11.3" and ("serve_all" in o.key or "serve_threaded" in o.key), "R17.2", floor=2)
     # a server tears its clients down one after the other: closing one whose peer has vanished must not raise out of the loop
-    K.share(ctx, rep, "c11", lambda o: o.rule == "R11.1" and "already gone" in o.key, "R17.1", floor=1)
+    K.share(ctx, rep, "c11", lambda o: o.rule == "R11.1" and ("already gone" in o.key or "runs _cleanup" in o.key), "R17.1", floor=2)
     # "each service's disconnect hook runs"
     K.share(ctx, rep, "c11", lambda o: o.rule == "R11.2" and "on_disconnect runs exactly once" in o.key, "R17.1", floor=1)
     # "each client promptly observes end-of-stream": also the client thread that is parked waiting for the receive lock
